@@ -133,7 +133,14 @@ async fn log_thread(
     loop {
         let e = rx.recv().await.ok_or_else(|| err_msg("dequeue"))?;
         if let Some(e) = e {
-            let mut line = format.to_string(e).context("deserializer error")?;
+            let mut line = match format.to_string(e) {
+                Ok(line) => line,
+                Err(e) => {
+                    // a record that can not be formatted must not take the log (and the process) down
+                    tracing::warn!("access log format error: {} cause: {:?}", e, e.cause);
+                    continue;
+                }
+            };
             line += "\r\n";
             stream
                 .write(line.as_bytes())
